@@ -17,6 +17,6 @@ one() {
   if echo "$out" | grep -q "exit=1"; then echo "DETECTED($tier) $p $(echo "$out" | grep '^VIOLATION' | grep -o 'sig=[^ ]*' | head -2 | tr '\n' ' ')"; else echo "MISSED $p $(echo "$out" | grep -E '^(OK|INFRA|PATCH)' | head -1 | cut -c1-120)"; fi
 }
 export -f one
-mkdir -p $HERE/.work; cat $jobs_file | xargs -P 3 -L 1 bash -c 'one $0 $1' | tee $HERE/.work/seed_regress.log
+mkdir -p $HERE/.work; cat $jobs_file | xargs -P 4 -L 1 bash -c 'one $0 $1' | tee $HERE/.work/seed_regress.log
 rm -f $jobs_file
 ! grep -q "^MISSED" $HERE/.work/seed_regress.log
